@@ -5,7 +5,8 @@
 // for byte) and both the input and the formatted text are parsed with the HTML5 parser
 // (golang.org/x/net/html, trusted base) and reduced to the normal form of internal/hx:
 //
-//   - same elements, same attribute names (namespace prefix included), same attribute values
+//   - same elements, same attribute names (namespace prefix included; a name that is repeated
+//     on an element must be repeated as often, occurrence by occurrence), same attribute values
 //     after collapsing whitespace runs inside the values;
 //   - same text with ALL whitespace removed ("the same non-whitespace text"; whitespace is what
 //     HTML calls whitespace: space, tab, LF, FF, CR - U+00A0 and friends are content), except inside
@@ -145,12 +146,20 @@ func normalise(nodes []*html.Node) []*hx.N {
 		if n.Type != html.ElementNode {
 			return
 		}
+		// golang.org/x/net/html keeps repeated attributes (and vuego gives them meaning: the
+		// documented way to require several props is to repeat :require on <template>). The
+		// k-th occurrence of a name is compared with the k-th occurrence on the other side.
+		occ := map[string]int{}
 		for i, a := range n.Attr {
 			if a.Namespace != "" {
 				n.Attr[i].Key = a.Namespace + ":" + a.Key
 				n.Attr[i].Namespace = ""
 			}
 			n.Attr[i].Val = protectSpaces(a.Val)
+			occ[n.Attr[i].Key]++
+			if k := occ[n.Attr[i].Key]; k > 1 {
+				n.Attr[i].Key = fmt.Sprintf("%s (occurrence %d)", n.Attr[i].Key, k)
+			}
 		}
 	})
 	l := hx.Norm(nodes, hx.Strip, false)
@@ -735,6 +744,13 @@ func classify(c Case) (bool, []string) {
 					add("el:custom")
 				default:
 					add("el:other")
+				}
+				names := map[string]bool{}
+				for _, a := range n.Attr {
+					if names[a.Namespace+":"+a.Key] {
+						add("attr-name:repeated")
+					}
+					names[a.Namespace+":"+a.Key] = true
 				}
 				for _, a := range n.Attr {
 					k, v := a.Key, a.Val
